@@ -45,9 +45,7 @@ def build(tier):
             elif vi % 3 == 2:
                 prefix = [dict(others[(bi + vi) % len(others)], id=f"prefix{bi}{vi}a"), dict(v, id=v["id"] + "/first")]
             histories.append(prefix + [v])
-    ctx = mp.get_context("fork")
-    with cf.ProcessPoolExecutor(max_workers=common.NCPU, mp_context=ctx) as ex:
-        res = list(ex.map(history, histories, chunksize=1))
+    res = common.pmap(history, histories)
     return {"bases": [b["id"] for b in bases], "histories": res}
 
 
